@@ -1,6 +1,8 @@
 //! SAT solver interfaces for Abstract Argumentation solvers.
 
 mod buffered_sat_solver;
+#[cfg(feature = "verif-hooks")]
+pub use buffered_sat_solver::{BufferedSatSolver, DimacsInstanceRead};
 
 mod cadical_solver;
 pub use cadical_solver::CadicalSolver;
